@@ -48,12 +48,20 @@ func (e *Engine) globalInitInt(pkgSuffix, name string) (int64, bool) {
 }
 
 func runC02(e *Engine, r *Report, tier string) {
-	r.Explanation = "C02, structural clauses. Decided: R1 in the tally the event is applied only on the branch `not (sum < required)`, `required` = <threshold constant> * get(0x39) / 100 with the constant's value 66, `sum` starts at 0 and only ever adds GetPower() of oracle records that were found for an address in the attestation's vote list (the not-found branch adds nothing), and GetPower is stake / power reduction; R2 a vote is recorded only for the oracle found through the bridger index (0x14) whose record (0x12) exists and is Online, the bridger being the claim's own; R3 signer identity — for the wrapper messages whose payload names its own bridger (MsgClaim, MsgConfirm) equality between the wrapper's signer field and the payload's bridger (mismatch -> error) dominates every success return of ValidateBasic (or the handler body), and every routed fx-core message declares a signer field that exists in its Go type; R4 every transaction-reachable function that stores an oracle record after setting Online=true, assigning DelegateAmount or creating the record refreshes the total power (0x39) on every success path afterwards, and the refresh sums GetPower over online oracles; R5 distinct voters — the vote append is guarded by a membership test of the appended oracle itself in the vote list whenever the per-oracle nonce can be deleted (decided as C01.R4). Not decided: `at least 66%` under integer truncation, stake distributions."
+	r.Explanation = "C02, structural clauses. Decided: R1 in the tally the event is applied only on the branch `not (sum < required)`, `required` = <threshold constant> * get(0x39) / 100 with the constant's value 66, `sum` starts at 0 and only ever adds GetPower() of oracle records that were found for an address in the attestation's vote list (the not-found branch adds nothing), and GetPower is stake / power reduction; R2 a vote is recorded only for the oracle found through the bridger index (0x14) whose record (0x12) exists and is Online, the bridger being the claim's own; R3 signer identity — for the wrapper messages whose payload names its own bridger (MsgClaim, MsgConfirm) equality between the wrapper's signer field and the payload's bridger (mismatch -> error) dominates every success return of ValidateBasic (or the handler body), and every routed fx-core message declares a signer field that exists in its Go type; R4 every transaction-reachable function that stores an oracle record after setting Online=true, assigning DelegateAmount or creating the record refreshes the total power (0x39) on every success path afterwards, and the refresh sums GetPower over online oracles; R5 distinct voters — the vote append is guarded by a membership test of the appended oracle itself in the vote list whenever the per-oracle nonce can be deleted (decided as C01.R4); R6 the summed votes are votes for the very same event — every field of a claim that is executed is part of its hash through a value-preserving rendering, and vote, store and tally use one (nonce, hash) (decided as C03.R1/R3; the three hash-coverage findings recorded for C03 are known findings here as well). Not decided: `at least 66%` under integer truncation, stake distributions."
 	r.Rule("R1", "quorum: apply iff sum(power of found voters) >= 66 * total(0x39) / 100", 5, "")
 	r.Rule("R2", "vote admission: bridger -> oracle (0x14, 0x12) found and Online; vote recorded for that oracle", 4, "")
 	r.Rule("R3", "signer identity: wrapper signer == payload bridger; signer fields exist", 3, "proto messages with cosmos.msg.v1.signer")
 	r.Rule("R4", "total power refreshed after every power-raising oracle write", 2, "bond, add-delegate")
 	r.Rule("R5", "distinct voters: the vote list cannot hold one oracle twice (C01.R4 at the vote append)", 1, "vote append sites")
+	r.Rule("R6", "the votes that are summed are votes for the very same event: every executed field is hashed injectively and vote/store/tally use one (nonce, hash) (C03.R1-R3)", 6, "C03 obligations")
+	sub03 := NewReport("C03", "other")
+	runC03(e, sub03, tier)
+	for _, o := range sub03.Obls {
+		if o.Rule == "R1" || o.Rule == "R3" {
+			r.add("R6", "C03."+o.Rule+" "+o.Construct, o.Status, o.Pos, o.Detail)
+		}
+	}
 	sub01 := NewReport("C01", "other")
 	runC01(e, sub01, tier)
 	for _, o := range sub01.Obls {
